@@ -375,6 +375,14 @@ def corpus():
         ["if", ["expr", V("a")], [["assign", "a", C(0), []], ["assign", "<state>z", ADD(Z, C(1)), []],
                                    ["if", ["expr", V("<state>z")], [["assign", "<state>z", C(0), []], ["assign", "<state>y", C(7), []]], None]], None],
         yld(ADD(Y, Z)), STEP]))
+    # a phase of more than ten statements with a barrier early on (statement ids are "<phase>_<n>": "main_10" < "main_2" as strings)
+    long_ops = [["assign", "k1", ADD(Y, C(1)), []], ["assign", "k2", MUL(V("k1"), C(2)), []], yld(V("k2"), tid="early")]
+    prev = "k2"
+    for j in range(3, 14):
+        long_ops.append(["assign", "k%d" % j, ADD(V(prev), C(j)), []])
+        prev = "k%d" % j
+    long_ops += [["assign", "<state>y", V(prev), []], yld(Y), STEP]
+    add("long_phase_with_early_barrier", P1(long_ops))
     add("temp_reused_across_branches", P1([
         ["if", ["expr", GT(Y, C(0))], [["assign", "w", C(1), []]], [["assign", "w", C(2), []]]],
         ["assign", "<state>y", ADD(Y, V("w")), []],
